@@ -1,22 +1,582 @@
 (* BezierFacts.v -- C18: evaluation = Bernstein sum, comb = binomial, derivative,
-   split retraces, box encloses the curve.  Degrees 1..6 (the property's range). *)
+   split retraces, box encloses the curve, on_seg soundness.
+   Degrees 1..6 (the property's range) for the ring identities; the hull
+   enclosure of de Casteljau and on_seg_sound hold for every segment. *)
 From SV Require Import Model.Curve.
 From Coq Require Import Lqa Lia.
 Open Scope Q_scope.
 
-Ltac unfold_eval :=
-  cbv [eval canon horner bernstein degree length map map2 seq psum fold_right fold_left
-       padd pscale pzero px py fst snd caract comb binom fact Nat.sub Nat.add Nat.mul Nat.leb Nat.odd Nat.even negb
-       Nat.div Nat.divmod Z.of_nat Pos.of_succ_nat Pos.succ Z.mul Z.div Z.div_eucl Z.pos_div_eucl Z.opp
-       Pos.mul Pos.add Z.leb Z.ltb Z.compare Pos.compare Pos.compare_cont Z.add Z.sub Z.pos_sub Z.double Z.succ_double Z.pred_double
-       Pos.pred_double inject_Z Qpow peq Z.gtb Z.geb Z.eqb Pos.eqb Pos.add_carry].
+(* Compute everything except the field operations and order of Q. *)
+Ltac qcbv := cbv -[Qplus Qmult Qminus Qopp Qeq Qdiv Qinv Qle Qlt].
 
+(* ---------- small facts on peq and the boolean rational helpers ---------- *)
+Lemma peq_refl : forall p, peq p p.
+Proof. intros; split; reflexivity. Qed.
+Lemma peq_sym : forall p q, peq p q -> peq q p.
+Proof. intros p q [H1 H2]; split; symmetry; assumption. Qed.
+Lemma peq_trans : forall p q r, peq p q -> peq q r -> peq p r.
+Proof. intros p q r [H1 H2] [H3 H4]; split; etransitivity; eassumption. Qed.
+
+Lemma Qlt_bool_true : forall a b, Qlt_bool a b = true -> a < b.
+Proof.
+  intros a b H. unfold Qlt_bool in H. apply negb_true_iff in H.
+  apply Qnot_le_lt. intro Hle. apply Qle_bool_iff in Hle. congruence.
+Qed.
+
+Lemma Qle_bool_false : forall a b, Qle_bool a b = false -> b < a.
+Proof.
+  intros a b H. apply Qnot_le_lt. intro Hle. apply Qle_bool_iff in Hle. congruence.
+Qed.
+
+Lemma Qmin'_le_l : forall a b, Qmin' a b <= a.
+Proof.
+  intros. unfold Qmin'. destruct (Qle_bool a b) eqn:E.
+  - apply Qle_refl.
+  - apply Qlt_le_weak, Qle_bool_false, E.
+Qed.
+Lemma Qmin'_le_r : forall a b, Qmin' a b <= b.
+Proof.
+  intros. unfold Qmin'. destruct (Qle_bool a b) eqn:E.
+  - apply Qle_bool_iff, E.
+  - apply Qle_refl.
+Qed.
+Lemma Qmax'_ge_l : forall a b, a <= Qmax' a b.
+Proof.
+  intros. unfold Qmax'. destruct (Qle_bool a b) eqn:E.
+  - apply Qle_bool_iff, E.
+  - apply Qle_refl.
+Qed.
+Lemma Qmax'_ge_r : forall a b, b <= Qmax' a b.
+Proof.
+  intros. unfold Qmax'. destruct (Qle_bool a b) eqn:E.
+  - apply Qle_refl.
+  - apply Qlt_le_weak, Qle_bool_false, E.
+Qed.
+Lemma Qmin'_glb : forall a b c, c <= a -> c <= b -> c <= Qmin' a b.
+Proof. intros. unfold Qmin'. destruct (Qle_bool a b); assumption. Qed.
+Lemma Qmax'_lub : forall a b c, a <= c -> b <= c -> Qmax' a b <= c.
+Proof. intros. unfold Qmax'. destruct (Qle_bool a b); assumption. Qed.
+
+(* ---------- goal 3: Math.comb is the binomial coefficient (n <= 6) ---------- *)
+Lemma comb_binom_le6 : forall n i, (i <= n)%nat -> (n <= 6)%nat -> comb n i = binom n i.
+Proof.
+  intros n i Hi Hn.
+  do 7 (destruct n as [|n];
+        [ do 7 (destruct i as [|i]; [ vm_compute; reflexivity | try lia ]) | try lia ]).
+Qed.
+
+(* ---------- goal 4: formal derivative of [a_n; ...; a_0] ---------- *)
+Fixpoint dcoef (cs : list point) : list point :=
+  match cs with
+  | [] => []
+  | a :: t => match t with
+              | [] => []
+              | _ :: _ => pscale (nQ (length t)) a :: dcoef t
+              end
+  end.
+
+(* ---------- goal 6: de Casteljau evaluation stays in the control box ---------- *)
+Fixpoint dc_fuel (n : nat) (t : Q) (s : seg) : point :=
+  match n with
+  | O => first_pt s
+  | S k => match s with
+           | _ :: _ :: _ => dc_fuel k t (casteljau_step t s)
+           | _ => first_pt s
+           end
+  end.
+Definition dc_eval (t : Q) (s : seg) : point := dc_fuel (length s) t s.
+
+Definition in_box (b : box) (p : point) : Prop :=
+  (bxmin b <= px p /\ px p <= bxmax b) /\ (bymin b <= py p /\ py p <= bymax b).
+
+Lemma in_box_peq : forall b p q, peq p q -> in_box b p -> in_box b q.
+Proof.
+  intros b p q [Hx Hy] [[H1 H2] [H3 H4]]. unfold in_box.
+  rewrite <- Hx, <- Hy. auto.
+Qed.
+
+Lemma fold_min_le_init : forall l x, fold_left Qmin' l x <= x.
+Proof.
+  induction l as [|a l IH]; intros x; simpl.
+  - apply Qle_refl.
+  - eapply Qle_trans; [apply IH | apply Qmin'_le_l].
+Qed.
+Lemma fold_min_le_elt : forall l x y, In y l -> fold_left Qmin' l x <= y.
+Proof.
+  induction l as [|a l IH]; intros x y Hin; simpl in *.
+  - contradiction.
+  - destruct Hin as [->|Hin].
+    + eapply Qle_trans; [apply fold_min_le_init | apply Qmin'_le_r].
+    + apply IH, Hin.
+Qed.
+Lemma fold_max_ge_init : forall l x, x <= fold_left Qmax' l x.
+Proof.
+  induction l as [|a l IH]; intros x; simpl.
+  - apply Qle_refl.
+  - eapply Qle_trans; [apply Qmax'_ge_l | apply IH].
+Qed.
+Lemma fold_max_ge_elt : forall l x y, In y l -> y <= fold_left Qmax' l x.
+Proof.
+  induction l as [|a l IH]; intros x y Hin; simpl in *.
+  - contradiction.
+  - destruct Hin as [->|Hin].
+    + eapply Qle_trans; [apply Qmax'_ge_r | apply fold_max_ge_init].
+    + apply IH, Hin.
+Qed.
+
+Lemma qmin_list_le : forall d l y, In y l -> qmin_list d l <= y.
+Proof.
+  intros d [|x l] y Hin; simpl in *.
+  - contradiction.
+  - destruct Hin as [->|Hin]; [apply fold_min_le_init | apply fold_min_le_elt, Hin].
+Qed.
+Lemma qmax_list_ge : forall d l y, In y l -> y <= qmax_list d l.
+Proof.
+  intros d [|x l] y Hin; simpl in *.
+  - contradiction.
+  - destruct Hin as [->|Hin]; [apply fold_max_ge_init | apply fold_max_ge_elt, Hin].
+Qed.
+
+(* every control point lies in the box of its segment *)
+Lemma ctrl_in_seg_box : forall s p, In p s -> in_box (seg_box s) p.
+Proof.
+  intros s p Hin. unfold in_box, seg_box, bxmin, bxmax, bymin, bymax; cbn [fst snd].
+  repeat split.
+  - apply qmin_list_le, in_map, Hin.
+  - apply qmax_list_ge, in_map, Hin.
+  - apply qmin_list_le, in_map, Hin.
+  - apply qmax_list_ge, in_map, Hin.
+Qed.
+
+Lemma lerp_in_box : forall b t p q, 0 <= t -> t <= 1 ->
+  in_box b p -> in_box b q -> in_box b (lerp t p q).
+Proof.
+  intros b t [xp yp] [xq yq] H0 H1 [[A1 A2] [A3 A4]] [[B1 B2] [B3 B4]].
+  unfold in_box, lerp, padd, pscale, px, py in *; cbn [fst snd] in *.
+  repeat split; nra.
+Qed.
+
+Lemma in_pairs_of : forall (A : Type) (l : list A) a b,
+  In (a, b) (pairs_of l) -> In a l /\ In b l.
+Proof.
+  induction l as [|x l IH]; intros a b Hin.
+  - contradiction.
+  - destruct l as [|y l].
+    + contradiction.
+    + change (pairs_of (x :: y :: l)) with ((x, y) :: pairs_of (y :: l)) in Hin.
+      destruct Hin as [E|Hin].
+      * inversion E; subst. split; [left; reflexivity | right; left; reflexivity].
+      * destruct (IH _ _ Hin) as [Ha Hb]. split; right; assumption.
+Qed.
+
+Lemma casteljau_step_in_box : forall b t s, 0 <= t -> t <= 1 ->
+  (forall p, In p s -> in_box b p) ->
+  forall p, In p (casteljau_step t s) -> in_box b p.
+Proof.
+  intros b t s H0 H1 Hs p Hin. unfold casteljau_step in Hin.
+  apply in_map_iff in Hin. destruct Hin as [[a c] [E Hin]]. subst p.
+  apply in_pairs_of in Hin. destruct Hin as [Ha Hc]. cbn [fst snd].
+  apply lerp_in_box; auto.
+Qed.
+
+Lemma dc_fuel_in_box : forall b t, 0 <= t -> t <= 1 ->
+  forall n s, s <> [] -> (forall p, In p s -> in_box b p) -> in_box b (dc_fuel n t s).
+Proof.
+  intros b t H0 H1. induction n as [|n IH]; intros s Hne Hs.
+  - destruct s as [|p s]; [congruence|]. apply Hs. left; reflexivity.
+  - destruct s as [|p [|q s]]; [congruence| |].
+    + apply Hs. left; reflexivity.
+    + cbn [dc_fuel]. apply IH.
+      * unfold casteljau_step. cbn [pairs_of map]. discriminate.
+      * apply casteljau_step_in_box; assumption.
+Qed.
+
+Theorem dc_eval_in_box : forall t s, 0 <= t -> t <= 1 -> s <> [] ->
+  in_box (seg_box s) (dc_eval t s).
+Proof.
+  intros t s H0 H1 Hne. unfold dc_eval.
+  apply dc_fuel_in_box; auto. apply ctrl_in_seg_box.
+Qed.
+
+(* ---------- goal 3 (bonus): comb n i = binom n i for every i <= n ---------- *)
+Definition zprod (l : list Z) : Z := fold_right Z.mul 1%Z l.
+
+Lemma fold_mul_zprod : forall l acc, fold_left Z.mul l acc = (acc * zprod l)%Z.
+Proof.
+  induction l as [|a l IH]; intros acc; simpl.
+  - unfold zprod; simpl. ring.
+  - rewrite IH. unfold zprod; simpl. ring.
+Qed.
+
+Lemma zprod_pos : forall l, Forall (fun z => (0 < z)%Z) l -> (0 < zprod l)%Z.
+Proof.
+  induction 1 as [|a l Ha Hl IH]; simpl.
+  - lia.
+  - apply Z.mul_pos_pos; assumption.
+Qed.
+
+Lemma fold_div_zprod : forall l p, Forall (fun z => (0 < z)%Z) l ->
+  fold_left Z.div l p = (p / zprod l)%Z.
+Proof.
+  induction l as [|a l IH]; intros p Hl; simpl.
+  - symmetry. apply Z.div_1_r.
+  - inversion Hl as [|? ? Ha Hl']; subst.
+    rewrite IH by assumption. apply Z.div_div; [lia | apply zprod_pos; assumption].
+Qed.
+
+Lemma seq_pos : forall k a, (1 <= a)%nat ->
+  Forall (fun z => (0 < z)%Z) (map Z.of_nat (seq a k)).
+Proof.
+  induction k as [|k IH]; intros a Ha; simpl; constructor.
+  - lia.
+  - apply IH. lia.
+Qed.
+
+Lemma zprod_seq_fact : forall k m,
+  (zprod (map Z.of_nat (seq (S m) k)) * Z.of_nat (fact m))%Z = Z.of_nat (fact (m + k)).
+Proof.
+  induction k as [|k IH]; intros m.
+  - cbn [seq map]. unfold zprod; cbn [fold_right]. rewrite Nat.add_0_r. ring.
+  - cbn [seq map zprod fold_right]. fold (zprod (map Z.of_nat (seq (S (S m)) k))).
+    replace (m + S k)%nat with (S m + k)%nat by lia. rewrite <- IH.
+    change (fact (S m)) with (S m * fact m)%nat. rewrite Nat2Z.inj_mul. ring.
+Qed.
+
+Theorem comb_binom : forall n i, (i <= n)%nat -> comb n i = binom n i.
+Proof.
+  intros n i Hi. unfold comb, binom.
+  rewrite fold_mul_zprod, Z.mul_1_l.
+  rewrite fold_div_zprod by (apply seq_pos; lia).
+  rewrite Nat2Z.inj_div, Nat2Z.inj_mul.
+  replace (n - i + 1)%nat with (S (n - i)) by lia.
+  pose proof (zprod_seq_fact i (n - i)) as HP.
+  replace (n - i + i)%nat with n in HP by lia.
+  assert (HI : zprod (map Z.of_nat (seq 2 (i - 1))) = Z.of_nat (fact i)).
+  { destruct i as [|i].
+    - reflexivity.
+    - pose proof (zprod_seq_fact (S i - 1) 1) as H.
+      replace (1 + (S i - 1))%nat with (S i) in H by lia.
+      change (Z.of_nat (fact 1)) with 1%Z in H. lia. }
+  rewrite HI, <- HP.
+  pose proof (lt_O_fact i). pose proof (lt_O_fact (n - i)).
+  symmetry. apply Z.div_mul_cancel_r; lia.
+Qed.
+
+(* ---- degree 1 ---- *)
 Lemma eval_bernstein_1 : forall x0 y0 x1 y1 t,
   peq (eval [(x0,y0);(x1,y1)] t) (bernstein [(x0,y0);(x1,y1)] t).
-Proof. intros. unfold_eval. split; ring. Qed.
+Proof. intros. qcbv. split; ring. Qed.
+Lemma eval_0_1 : forall x0 y0 x1 y1,
+  peq (eval [(x0,y0);(x1,y1)] 0) (first_pt [(x0,y0);(x1,y1)]).
+Proof. intros. qcbv. split; ring. Qed.
+Lemma eval_1_1 : forall x0 y0 x1 y1,
+  peq (eval [(x0,y0);(x1,y1)] 1) (last_pt [(x0,y0);(x1,y1)]).
+Proof. intros. qcbv. split; ring. Qed.
+Lemma eval_derivate_1 : forall x0 y0 x1 y1 t,
+  peq (eval (derivate [(x0,y0);(x1,y1)]) t) (horner t (dcoef (canon [(x0,y0);(x1,y1)]))).
+Proof. intros. qcbv. split; ring. Qed.
+Lemma split_left_1 : forall x0 y0 x1 y1 u x,
+  peq (eval (fst (split_at u [(x0,y0);(x1,y1)])) x) (eval [(x0,y0);(x1,y1)] (u * x)).
+Proof. intros. qcbv. split; ring. Qed.
+Lemma split_right_1 : forall x0 y0 x1 y1 u x,
+  peq (eval (snd (split_at u [(x0,y0);(x1,y1)])) x) (eval [(x0,y0);(x1,y1)] (u + (1 - u) * x)).
+Proof. intros. qcbv. split; ring. Qed.
+Lemma eval_dc_1 : forall x0 y0 x1 y1 t,
+  peq (eval [(x0,y0);(x1,y1)] t) (dc_eval t [(x0,y0);(x1,y1)]).
+Proof. intros. qcbv. split; ring. Qed.
+Lemma box_hull_1 : forall x0 y0 x1 y1 t, 0 <= t -> t <= 1 ->
+  in_box (seg_box [(x0,y0);(x1,y1)]) (eval [(x0,y0);(x1,y1)] t).
+Proof.
+  intros. eapply in_box_peq; [ apply peq_sym, eval_dc_1 | ].
+  apply dc_eval_in_box; [assumption | assumption | discriminate].
+Qed.
+
+(* ---- degree 2 ---- *)
 Lemma eval_bernstein_2 : forall x0 y0 x1 y1 x2 y2 t,
   peq (eval [(x0,y0);(x1,y1);(x2,y2)] t) (bernstein [(x0,y0);(x1,y1);(x2,y2)] t).
-Proof. intros. unfold_eval. split; ring. Qed.
+Proof. intros. qcbv. split; ring. Qed.
+Lemma eval_0_2 : forall x0 y0 x1 y1 x2 y2,
+  peq (eval [(x0,y0);(x1,y1);(x2,y2)] 0) (first_pt [(x0,y0);(x1,y1);(x2,y2)]).
+Proof. intros. qcbv. split; ring. Qed.
+Lemma eval_1_2 : forall x0 y0 x1 y1 x2 y2,
+  peq (eval [(x0,y0);(x1,y1);(x2,y2)] 1) (last_pt [(x0,y0);(x1,y1);(x2,y2)]).
+Proof. intros. qcbv. split; ring. Qed.
+Lemma eval_derivate_2 : forall x0 y0 x1 y1 x2 y2 t,
+  peq (eval (derivate [(x0,y0);(x1,y1);(x2,y2)]) t) (horner t (dcoef (canon [(x0,y0);(x1,y1);(x2,y2)]))).
+Proof. intros. qcbv. split; ring. Qed.
+Lemma split_left_2 : forall x0 y0 x1 y1 x2 y2 u x,
+  peq (eval (fst (split_at u [(x0,y0);(x1,y1);(x2,y2)])) x) (eval [(x0,y0);(x1,y1);(x2,y2)] (u * x)).
+Proof. intros. qcbv. split; ring. Qed.
+Lemma split_right_2 : forall x0 y0 x1 y1 x2 y2 u x,
+  peq (eval (snd (split_at u [(x0,y0);(x1,y1);(x2,y2)])) x) (eval [(x0,y0);(x1,y1);(x2,y2)] (u + (1 - u) * x)).
+Proof. intros. qcbv. split; ring. Qed.
+Lemma eval_dc_2 : forall x0 y0 x1 y1 x2 y2 t,
+  peq (eval [(x0,y0);(x1,y1);(x2,y2)] t) (dc_eval t [(x0,y0);(x1,y1);(x2,y2)]).
+Proof. intros. qcbv. split; ring. Qed.
+Lemma box_hull_2 : forall x0 y0 x1 y1 x2 y2 t, 0 <= t -> t <= 1 ->
+  in_box (seg_box [(x0,y0);(x1,y1);(x2,y2)]) (eval [(x0,y0);(x1,y1);(x2,y2)] t).
+Proof.
+  intros. eapply in_box_peq; [ apply peq_sym, eval_dc_2 | ].
+  apply dc_eval_in_box; [assumption | assumption | discriminate].
+Qed.
+
+(* ---- degree 3 ---- *)
 Lemma eval_bernstein_3 : forall x0 y0 x1 y1 x2 y2 x3 y3 t,
   peq (eval [(x0,y0);(x1,y1);(x2,y2);(x3,y3)] t) (bernstein [(x0,y0);(x1,y1);(x2,y2);(x3,y3)] t).
-Proof. intros. unfold_eval. split; ring. Qed.
+Proof. intros. qcbv. split; ring. Qed.
+Lemma eval_0_3 : forall x0 y0 x1 y1 x2 y2 x3 y3,
+  peq (eval [(x0,y0);(x1,y1);(x2,y2);(x3,y3)] 0) (first_pt [(x0,y0);(x1,y1);(x2,y2);(x3,y3)]).
+Proof. intros. qcbv. split; ring. Qed.
+Lemma eval_1_3 : forall x0 y0 x1 y1 x2 y2 x3 y3,
+  peq (eval [(x0,y0);(x1,y1);(x2,y2);(x3,y3)] 1) (last_pt [(x0,y0);(x1,y1);(x2,y2);(x3,y3)]).
+Proof. intros. qcbv. split; ring. Qed.
+Lemma eval_derivate_3 : forall x0 y0 x1 y1 x2 y2 x3 y3 t,
+  peq (eval (derivate [(x0,y0);(x1,y1);(x2,y2);(x3,y3)]) t) (horner t (dcoef (canon [(x0,y0);(x1,y1);(x2,y2);(x3,y3)]))).
+Proof. intros. qcbv. split; ring. Qed.
+Lemma split_left_3 : forall x0 y0 x1 y1 x2 y2 x3 y3 u x,
+  peq (eval (fst (split_at u [(x0,y0);(x1,y1);(x2,y2);(x3,y3)])) x) (eval [(x0,y0);(x1,y1);(x2,y2);(x3,y3)] (u * x)).
+Proof. intros. qcbv. split; ring. Qed.
+Lemma split_right_3 : forall x0 y0 x1 y1 x2 y2 x3 y3 u x,
+  peq (eval (snd (split_at u [(x0,y0);(x1,y1);(x2,y2);(x3,y3)])) x) (eval [(x0,y0);(x1,y1);(x2,y2);(x3,y3)] (u + (1 - u) * x)).
+Proof. intros. qcbv. split; ring. Qed.
+Lemma eval_dc_3 : forall x0 y0 x1 y1 x2 y2 x3 y3 t,
+  peq (eval [(x0,y0);(x1,y1);(x2,y2);(x3,y3)] t) (dc_eval t [(x0,y0);(x1,y1);(x2,y2);(x3,y3)]).
+Proof. intros. qcbv. split; ring. Qed.
+Lemma box_hull_3 : forall x0 y0 x1 y1 x2 y2 x3 y3 t, 0 <= t -> t <= 1 ->
+  in_box (seg_box [(x0,y0);(x1,y1);(x2,y2);(x3,y3)]) (eval [(x0,y0);(x1,y1);(x2,y2);(x3,y3)] t).
+Proof.
+  intros. eapply in_box_peq; [ apply peq_sym, eval_dc_3 | ].
+  apply dc_eval_in_box; [assumption | assumption | discriminate].
+Qed.
+
+(* ---- degree 4 ---- *)
+Lemma eval_bernstein_4 : forall x0 y0 x1 y1 x2 y2 x3 y3 x4 y4 t,
+  peq (eval [(x0,y0);(x1,y1);(x2,y2);(x3,y3);(x4,y4)] t) (bernstein [(x0,y0);(x1,y1);(x2,y2);(x3,y3);(x4,y4)] t).
+Proof. intros. qcbv. split; ring. Qed.
+Lemma eval_0_4 : forall x0 y0 x1 y1 x2 y2 x3 y3 x4 y4,
+  peq (eval [(x0,y0);(x1,y1);(x2,y2);(x3,y3);(x4,y4)] 0) (first_pt [(x0,y0);(x1,y1);(x2,y2);(x3,y3);(x4,y4)]).
+Proof. intros. qcbv. split; ring. Qed.
+Lemma eval_1_4 : forall x0 y0 x1 y1 x2 y2 x3 y3 x4 y4,
+  peq (eval [(x0,y0);(x1,y1);(x2,y2);(x3,y3);(x4,y4)] 1) (last_pt [(x0,y0);(x1,y1);(x2,y2);(x3,y3);(x4,y4)]).
+Proof. intros. qcbv. split; ring. Qed.
+Lemma eval_derivate_4 : forall x0 y0 x1 y1 x2 y2 x3 y3 x4 y4 t,
+  peq (eval (derivate [(x0,y0);(x1,y1);(x2,y2);(x3,y3);(x4,y4)]) t) (horner t (dcoef (canon [(x0,y0);(x1,y1);(x2,y2);(x3,y3);(x4,y4)]))).
+Proof. intros. qcbv. split; ring. Qed.
+Lemma split_left_4 : forall x0 y0 x1 y1 x2 y2 x3 y3 x4 y4 u x,
+  peq (eval (fst (split_at u [(x0,y0);(x1,y1);(x2,y2);(x3,y3);(x4,y4)])) x) (eval [(x0,y0);(x1,y1);(x2,y2);(x3,y3);(x4,y4)] (u * x)).
+Proof. intros. qcbv. split; ring. Qed.
+Lemma split_right_4 : forall x0 y0 x1 y1 x2 y2 x3 y3 x4 y4 u x,
+  peq (eval (snd (split_at u [(x0,y0);(x1,y1);(x2,y2);(x3,y3);(x4,y4)])) x) (eval [(x0,y0);(x1,y1);(x2,y2);(x3,y3);(x4,y4)] (u + (1 - u) * x)).
+Proof. intros. qcbv. split; ring. Qed.
+Lemma eval_dc_4 : forall x0 y0 x1 y1 x2 y2 x3 y3 x4 y4 t,
+  peq (eval [(x0,y0);(x1,y1);(x2,y2);(x3,y3);(x4,y4)] t) (dc_eval t [(x0,y0);(x1,y1);(x2,y2);(x3,y3);(x4,y4)]).
+Proof. intros. qcbv. split; ring. Qed.
+Lemma box_hull_4 : forall x0 y0 x1 y1 x2 y2 x3 y3 x4 y4 t, 0 <= t -> t <= 1 ->
+  in_box (seg_box [(x0,y0);(x1,y1);(x2,y2);(x3,y3);(x4,y4)]) (eval [(x0,y0);(x1,y1);(x2,y2);(x3,y3);(x4,y4)] t).
+Proof.
+  intros. eapply in_box_peq; [ apply peq_sym, eval_dc_4 | ].
+  apply dc_eval_in_box; [assumption | assumption | discriminate].
+Qed.
+
+(* ---- degree 5 ---- *)
+Lemma eval_bernstein_5 : forall x0 y0 x1 y1 x2 y2 x3 y3 x4 y4 x5 y5 t,
+  peq (eval [(x0,y0);(x1,y1);(x2,y2);(x3,y3);(x4,y4);(x5,y5)] t) (bernstein [(x0,y0);(x1,y1);(x2,y2);(x3,y3);(x4,y4);(x5,y5)] t).
+Proof. intros. qcbv. split; ring. Qed.
+Lemma eval_0_5 : forall x0 y0 x1 y1 x2 y2 x3 y3 x4 y4 x5 y5,
+  peq (eval [(x0,y0);(x1,y1);(x2,y2);(x3,y3);(x4,y4);(x5,y5)] 0) (first_pt [(x0,y0);(x1,y1);(x2,y2);(x3,y3);(x4,y4);(x5,y5)]).
+Proof. intros. qcbv. split; ring. Qed.
+Lemma eval_1_5 : forall x0 y0 x1 y1 x2 y2 x3 y3 x4 y4 x5 y5,
+  peq (eval [(x0,y0);(x1,y1);(x2,y2);(x3,y3);(x4,y4);(x5,y5)] 1) (last_pt [(x0,y0);(x1,y1);(x2,y2);(x3,y3);(x4,y4);(x5,y5)]).
+Proof. intros. qcbv. split; ring. Qed.
+Lemma eval_derivate_5 : forall x0 y0 x1 y1 x2 y2 x3 y3 x4 y4 x5 y5 t,
+  peq (eval (derivate [(x0,y0);(x1,y1);(x2,y2);(x3,y3);(x4,y4);(x5,y5)]) t) (horner t (dcoef (canon [(x0,y0);(x1,y1);(x2,y2);(x3,y3);(x4,y4);(x5,y5)]))).
+Proof. intros. qcbv. split; ring. Qed.
+Lemma split_left_5 : forall x0 y0 x1 y1 x2 y2 x3 y3 x4 y4 x5 y5 u x,
+  peq (eval (fst (split_at u [(x0,y0);(x1,y1);(x2,y2);(x3,y3);(x4,y4);(x5,y5)])) x) (eval [(x0,y0);(x1,y1);(x2,y2);(x3,y3);(x4,y4);(x5,y5)] (u * x)).
+Proof. intros. qcbv. split; ring. Qed.
+Lemma split_right_5 : forall x0 y0 x1 y1 x2 y2 x3 y3 x4 y4 x5 y5 u x,
+  peq (eval (snd (split_at u [(x0,y0);(x1,y1);(x2,y2);(x3,y3);(x4,y4);(x5,y5)])) x) (eval [(x0,y0);(x1,y1);(x2,y2);(x3,y3);(x4,y4);(x5,y5)] (u + (1 - u) * x)).
+Proof. intros. qcbv. split; ring. Qed.
+Lemma eval_dc_5 : forall x0 y0 x1 y1 x2 y2 x3 y3 x4 y4 x5 y5 t,
+  peq (eval [(x0,y0);(x1,y1);(x2,y2);(x3,y3);(x4,y4);(x5,y5)] t) (dc_eval t [(x0,y0);(x1,y1);(x2,y2);(x3,y3);(x4,y4);(x5,y5)]).
+Proof. intros. qcbv. split; ring. Qed.
+Lemma box_hull_5 : forall x0 y0 x1 y1 x2 y2 x3 y3 x4 y4 x5 y5 t, 0 <= t -> t <= 1 ->
+  in_box (seg_box [(x0,y0);(x1,y1);(x2,y2);(x3,y3);(x4,y4);(x5,y5)]) (eval [(x0,y0);(x1,y1);(x2,y2);(x3,y3);(x4,y4);(x5,y5)] t).
+Proof.
+  intros. eapply in_box_peq; [ apply peq_sym, eval_dc_5 | ].
+  apply dc_eval_in_box; [assumption | assumption | discriminate].
+Qed.
+
+(* ---- degree 6 ---- *)
+Lemma eval_bernstein_6 : forall x0 y0 x1 y1 x2 y2 x3 y3 x4 y4 x5 y5 x6 y6 t,
+  peq (eval [(x0,y0);(x1,y1);(x2,y2);(x3,y3);(x4,y4);(x5,y5);(x6,y6)] t) (bernstein [(x0,y0);(x1,y1);(x2,y2);(x3,y3);(x4,y4);(x5,y5);(x6,y6)] t).
+Proof. intros. qcbv. split; ring. Qed.
+Lemma eval_0_6 : forall x0 y0 x1 y1 x2 y2 x3 y3 x4 y4 x5 y5 x6 y6,
+  peq (eval [(x0,y0);(x1,y1);(x2,y2);(x3,y3);(x4,y4);(x5,y5);(x6,y6)] 0) (first_pt [(x0,y0);(x1,y1);(x2,y2);(x3,y3);(x4,y4);(x5,y5);(x6,y6)]).
+Proof. intros. qcbv. split; ring. Qed.
+Lemma eval_1_6 : forall x0 y0 x1 y1 x2 y2 x3 y3 x4 y4 x5 y5 x6 y6,
+  peq (eval [(x0,y0);(x1,y1);(x2,y2);(x3,y3);(x4,y4);(x5,y5);(x6,y6)] 1) (last_pt [(x0,y0);(x1,y1);(x2,y2);(x3,y3);(x4,y4);(x5,y5);(x6,y6)]).
+Proof. intros. qcbv. split; ring. Qed.
+Lemma eval_derivate_6 : forall x0 y0 x1 y1 x2 y2 x3 y3 x4 y4 x5 y5 x6 y6 t,
+  peq (eval (derivate [(x0,y0);(x1,y1);(x2,y2);(x3,y3);(x4,y4);(x5,y5);(x6,y6)]) t) (horner t (dcoef (canon [(x0,y0);(x1,y1);(x2,y2);(x3,y3);(x4,y4);(x5,y5);(x6,y6)]))).
+Proof. intros. qcbv. split; ring. Qed.
+Lemma split_left_6 : forall x0 y0 x1 y1 x2 y2 x3 y3 x4 y4 x5 y5 x6 y6 u x,
+  peq (eval (fst (split_at u [(x0,y0);(x1,y1);(x2,y2);(x3,y3);(x4,y4);(x5,y5);(x6,y6)])) x) (eval [(x0,y0);(x1,y1);(x2,y2);(x3,y3);(x4,y4);(x5,y5);(x6,y6)] (u * x)).
+Proof. intros. qcbv. split; ring. Qed.
+Lemma split_right_6 : forall x0 y0 x1 y1 x2 y2 x3 y3 x4 y4 x5 y5 x6 y6 u x,
+  peq (eval (snd (split_at u [(x0,y0);(x1,y1);(x2,y2);(x3,y3);(x4,y4);(x5,y5);(x6,y6)])) x) (eval [(x0,y0);(x1,y1);(x2,y2);(x3,y3);(x4,y4);(x5,y5);(x6,y6)] (u + (1 - u) * x)).
+Proof. intros. qcbv. split; ring. Qed.
+Lemma eval_dc_6 : forall x0 y0 x1 y1 x2 y2 x3 y3 x4 y4 x5 y5 x6 y6 t,
+  peq (eval [(x0,y0);(x1,y1);(x2,y2);(x3,y3);(x4,y4);(x5,y5);(x6,y6)] t) (dc_eval t [(x0,y0);(x1,y1);(x2,y2);(x3,y3);(x4,y4);(x5,y5);(x6,y6)]).
+Proof. intros. qcbv. split; ring. Qed.
+Lemma box_hull_6 : forall x0 y0 x1 y1 x2 y2 x3 y3 x4 y4 x5 y5 x6 y6 t, 0 <= t -> t <= 1 ->
+  in_box (seg_box [(x0,y0);(x1,y1);(x2,y2);(x3,y3);(x4,y4);(x5,y5);(x6,y6)]) (eval [(x0,y0);(x1,y1);(x2,y2);(x3,y3);(x4,y4);(x5,y5);(x6,y6)] t).
+Proof.
+  intros. eapply in_box_peq; [ apply peq_sym, eval_dc_6 | ].
+  apply dc_eval_in_box; [assumption | assumption | discriminate].
+Qed.
+
+(* ---------- the same facts stated on arbitrary segments of degree 1..6 ---------- *)
+Ltac seg_cases s H :=
+  destruct s as [|[? ?] [|[? ?] [|[? ?] [|[? ?] [|[? ?] [|[? ?] [|[? ?] [|[? ?] ?]]]]]]]];
+  cbn [length] in H; try lia.
+
+Theorem eval_bernstein_le6 : forall s t, (2 <= length s <= 7)%nat ->
+  peq (eval s t) (bernstein s t).
+Proof.
+  intros s t H. seg_cases s H;
+  [ apply eval_bernstein_1 | apply eval_bernstein_2 | apply eval_bernstein_3
+  | apply eval_bernstein_4 | apply eval_bernstein_5 | apply eval_bernstein_6 ].
+Qed.
+Theorem eval_0_le6 : forall s, (2 <= length s <= 7)%nat -> peq (eval s 0) (first_pt s).
+Proof.
+  intros s H. seg_cases s H;
+  [ apply eval_0_1 | apply eval_0_2 | apply eval_0_3
+  | apply eval_0_4 | apply eval_0_5 | apply eval_0_6 ].
+Qed.
+Theorem eval_1_le6 : forall s, (2 <= length s <= 7)%nat -> peq (eval s 1) (last_pt s).
+Proof.
+  intros s H. seg_cases s H;
+  [ apply eval_1_1 | apply eval_1_2 | apply eval_1_3
+  | apply eval_1_4 | apply eval_1_5 | apply eval_1_6 ].
+Qed.
+Theorem eval_derivate_le6 : forall s t, (2 <= length s <= 7)%nat ->
+  peq (eval (derivate s) t) (horner t (dcoef (canon s))).
+Proof.
+  intros s t H. seg_cases s H;
+  [ apply eval_derivate_1 | apply eval_derivate_2 | apply eval_derivate_3
+  | apply eval_derivate_4 | apply eval_derivate_5 | apply eval_derivate_6 ].
+Qed.
+Theorem split_left_le6 : forall s u x, (2 <= length s <= 7)%nat ->
+  peq (eval (fst (split_at u s)) x) (eval s (u * x)).
+Proof.
+  intros s u x H. seg_cases s H;
+  [ apply split_left_1 | apply split_left_2 | apply split_left_3
+  | apply split_left_4 | apply split_left_5 | apply split_left_6 ].
+Qed.
+Theorem split_right_le6 : forall s u x, (2 <= length s <= 7)%nat ->
+  peq (eval (snd (split_at u s)) x) (eval s (u + (1 - u) * x)).
+Proof.
+  intros s u x H. seg_cases s H;
+  [ apply split_right_1 | apply split_right_2 | apply split_right_3
+  | apply split_right_4 | apply split_right_5 | apply split_right_6 ].
+Qed.
+Theorem eval_dc_le6 : forall s t, (2 <= length s <= 7)%nat -> peq (eval s t) (dc_eval t s).
+Proof.
+  intros s t H. seg_cases s H;
+  [ apply eval_dc_1 | apply eval_dc_2 | apply eval_dc_3
+  | apply eval_dc_4 | apply eval_dc_5 | apply eval_dc_6 ].
+Qed.
+Theorem box_hull_le6 : forall s t, (2 <= length s <= 7)%nat -> 0 <= t -> t <= 1 ->
+  in_box (seg_box s) (eval s t).
+Proof.
+  intros s t H H0 H1. seg_cases s H;
+  [ apply box_hull_1 | apply box_hull_2 | apply box_hull_3
+  | apply box_hull_4 | apply box_hull_5 | apply box_hull_6 ]; assumption.
+Qed.
+
+(* ---------- goal 7: on_seg is sound (any segment) ---------- *)
+Definition all01 (l : list Q) : Prop := forall u, In u l -> 0 <= u /\ u <= 1.
+
+Lemma Qclamp01_range : forall x, 0 <= Qclamp01 x /\ Qclamp01 x <= 1.
+Proof.
+  intros x. unfold Qclamp01. split.
+  - apply Qmin'_glb; [lra | apply Qmax'_ge_r].
+  - apply Qmin'_le_l.
+Qed.
+
+Lemma nQ_nonneg : forall k, 0 <= nQ k.
+Proof. intros k. unfold nQ. change 0 with (inject_Z 0). rewrite <- Zle_Qle. lia. Qed.
+Lemma nQ_le : forall a b, (a <= b)%nat -> nQ a <= nQ b.
+Proof. intros a b H. unfold nQ. rewrite <- Zle_Qle. lia. Qed.
+Lemma nQ_pos : forall k, (1 <= k)%nat -> 0 < nQ k.
+Proof. intros k H. unfold nQ. change 0 with (inject_Z 0). rewrite <- Zlt_Qlt. lia. Qed.
+
+Lemma closed_linspace_all01 : forall n, (2 <= n)%nat -> all01 (closed_linspace n).
+Proof.
+  intros n Hn u Hin. unfold closed_linspace in Hin.
+  apply in_map_iff in Hin. destruct Hin as [k [E Hk]]. subst u.
+  apply in_seq in Hk. rewrite Qred_correct.
+  assert (Hpos : 0 < nQ (n - 1)) by (apply nQ_pos; lia).
+  split.
+  - apply Qle_shift_div_l; [assumption|]. rewrite Qmult_0_l. apply nQ_nonneg.
+  - apply Qle_shift_div_r; [assumption|]. rewrite Qmult_1_l. apply nQ_le. lia.
+Qed.
+
+Lemma dedup_incl : forall (A : Type) (eqb : A -> A -> bool) l x,
+  In x (dedup eqb l) -> In x l.
+Proof.
+  induction l as [|a l IH]; intros x Hin; simpl in *.
+  - contradiction.
+  - destruct (existsb (eqb a) l).
+    + right. apply IH, Hin.
+    + destruct Hin as [->|Hin]; [left; reflexivity | right; apply IH, Hin].
+Qed.
+
+Lemma newton_map_all01 : forall s ds dds p us,
+  all01 (dedup Qeq_bool (map (newton_step s ds dds p) us)).
+Proof.
+  intros s ds dds p us u Hin. apply dedup_incl in Hin.
+  apply in_map_iff in Hin. destruct Hin as [v [E _]]. subst u.
+  unfold newton_step. apply Qclamp01_range.
+Qed.
+
+Lemma newton_rounds_all01 : forall n s ds dds p us,
+  all01 us -> all01 (newton_rounds n s ds dds p us).
+Proof.
+  induction n as [|n IH]; intros s ds dds p us Hus; cbn [newton_rounds].
+  - assumption.
+  - pose proof (newton_map_all01 s ds dds p us) as H.
+    destruct (dedup Qeq_bool (map (newton_step s ds dds p) us)) as [|a [|b l]].
+    + apply IH, H.
+    + exact H.
+    + apply IH, H.
+Qed.
+
+Lemma project_all01 : forall s p, all01 (project s p).
+Proof.
+  intros s p. unfold project. apply newton_rounds_all01.
+  apply closed_linspace_all01. lia.
+Qed.
+
+Theorem on_seg_sound : forall s p, on_seg s p = true ->
+  exists u, 0 <= u /\ u <= 1 /\ dist2 s p u < tol6sq.
+Proof.
+  intros s p H. unfold on_seg in H. apply andb_true_iff in H. destruct H as [_ H].
+  apply existsb_exists in H. destruct H as [u [Hin Hlt]].
+  exists u. destruct (project_all01 s p u Hin) as [H0 H1].
+  repeat split; try assumption. apply Qlt_bool_true, Hlt.
+Qed.
+
+Print Assumptions eval_bernstein_le6.
+Print Assumptions eval_0_le6.
+Print Assumptions eval_1_le6.
+Print Assumptions comb_binom_le6.
+Print Assumptions comb_binom.
+Print Assumptions eval_derivate_le6.
+Print Assumptions split_left_le6.
+Print Assumptions split_right_le6.
+Print Assumptions dc_eval_in_box.
+Print Assumptions eval_dc_le6.
+Print Assumptions box_hull_le6.
+Print Assumptions on_seg_sound.
